@@ -57,6 +57,9 @@ var splices = []splice{
 	{"comment", "{{-- c --}}", ""},
 	{"comment-syntax-inside", "{{-- {{ x }} @if(y) \" ' @end \\{{ --}}", ""},
 	{"assign", "{{ zz = 1 }}", ""},
+	{"for-assignment-post", "@for(k = 0; k < 2; k = k + 1)X@else Y@end", "XX"},
+	{"for-without-post", "@for(k = 0; k < 2;){{ k = k + 1 }}X@else Y@end", "XX"},
+	{"each-else", "@each(v in [])X@else Y@end", " Y"},
 }
 
 func init() {
@@ -225,7 +228,7 @@ func init() {
 				}})
 			// the same texts through template files: page, layout, insert block, component file, slot body,
 			// between slots; rendered with String and written with Response
-			fileTexts := append(append([]string{}, texts...), "100% sure", "%d %s %v", "50%", "%", "%%", "a%", "\u00a0", "\f", "é\u3000", "i", "if", "It", "a\x00b", "\x00", "\xff\x01")
+			fileTexts := append(append([]string{}, texts...), "100% sure", "%d %s %v", "50%", "%", "%%", "a%", "\u00a0", "\f", "é\u3000", "i", "if", "It", "a\x00b", "\x00", "\xff\x01", "\ufeff", "\ufeff\ufeff", "\xef\xbb", "\xfe\xff", "\xff\xfe", "\u200b", "\u2060")
 			secs = append(secs, core.Section{Name: "text-through-files", Exhaustive: true, N: len(fileTexts),
 				Run: func(c *core.Ctx, i int) {
 					t := fileTexts[i]
@@ -242,6 +245,12 @@ func init() {
 						"gap.tw":             "G@component(\"~box\")<" + t + ">",
 						"components/bare.tw": "[@slot(\"a\")]",
 						"gapslot.tw":         "G@component(\"~bare\")" + t + "@slot(\"a\")S@end@end",
+						// the text is the very first thing in the file
+						"startpage.tw":         t + "|rest",
+						"layouts/startlay.tw":  t + "|@reserve(\"body\")",
+						"usesstartlay.tw":      "@use(\"~startlay\")@insert(\"body\", \"B\")",
+						"components/startc.tw": t + "|C",
+						"usesstartc.tw":        "[@component(\"~startc\")][@component(\"~startc\")]",
 					}
 					tpl, err := loadTree(c, "c05tree", files, ".tw")
 					c.Nontrivial("files:" + t)
@@ -258,6 +267,9 @@ func init() {
 						"withcomp":   "P<" + out + ">C<" + out + ">S<" + out + ">|T<" + out + "><" + out + "><" + out + ">",
 						"gap":        "GC<" + out + ">|<" + out + "><" + out + ">",
 					}
+					want["startpage"] = out + "|rest"
+					want["usesstartlay"] = out + "|B"
+					want["usesstartc"] = "[" + out + "|C][" + out + "|C]"
 					// a text run between a component and a slot directive is text unless it is only blanks:
 					// whatever the slot then means, the run itself must come out
 					if strings.Trim(t, " \t\r\n") != "" {
@@ -265,7 +277,7 @@ func init() {
 							c.Violation("text-through-files:gapslot", fmt.Sprintf("the text between @component(...) and @slot is missing from %q", got.Out), map[string]any{"text": t, "files": describeFiles(files)})
 						}
 					}
-					for _, page := range []string{"plain", "withlayout", "withcomp", "gap"} {
+					for _, page := range []string{"plain", "withlayout", "withcomp", "gap", "startpage", "usesstartlay", "usesstartc"} {
 						got, _ := renderPage(c, tpl, page, nil)
 						if got.Panicked {
 							continue
